@@ -283,6 +283,7 @@ def clause_model(facts, rep, tier, kinds=('free', 'pool')):
     for f in facts.functions:
         if (f.cls_qn or '').startswith('sonic_json::DNode'):
             if f.short == 'findMemberImpl' and f.params and 'StringView' not in f.params[0]['t'] and 'basic_string_view' not in f.params[0]['t']:
+                fns_by['free' if (f.name.startswith('sonic_json::DNode<sonic_json::SimpleAllocator>') or f.name.startswith('sonic_json::DNode<SAlloc>')) else 'pool'].setdefault('findMemberImpl/ptr', f)
                 continue
             fns_by['free' if (f.name.startswith('sonic_json::DNode<sonic_json::SimpleAllocator>') or f.name.startswith('sonic_json::DNode<SAlloc>')) else 'pool'].setdefault(f.short, f)
     fns = fns_by['free']
@@ -293,7 +294,7 @@ def clause_model(facts, rep, tier, kinds=('free', 'pool')):
         rep.fn(fns[n_])
     depth = 3 if tier == 'thorough' else 2
     cur = {'fns': fns, 'need_free': True}
-    KEYS = ['a', 'b', 'c', 'd', 'e']
+    KEYS = ['a', 'b', 'ab', 'd', 'e']       # 'a' is a proper prefix of 'ab'
     stats = {'seq': 0, 'ops': 0}
 
     def val(i):
@@ -352,6 +353,26 @@ def clause_model(facts, rep, tier, kinds=('free', 'pool')):
                     want = [j for j, (kk, _) in enumerate(ref) if kk == k]
                     if (found is None) != (not want) or (want and found not in want):
                         return 'FindMember(%r) -> %s, the model has it at %s' % (k, found, want or 'nowhere')
+                    # the pointer + length overload, the key being the first bytes of a longer buffer
+                    if 'findMemberImpl/ptr' in cur['fns']:
+                        p2 = M.run(cur['fns']['findMemberImpl/ptr'], root, [dm.CharPtr(k + 'Zq', dm.new_addr()), len(k)])
+                        stats['ops'] += 1
+                        f2 = p2.idx // 2 if isinstance(p2, Ptr) and p2.block is not None and p2.block is root.block and 0 <= p2.idx < 2 * root.length else None
+                        if (f2 is None) != (not want) or (want and f2 not in want):
+                            return 'FindMember(ptr, %d) with %r as the first bytes of a longer buffer -> %s, the model has it at %s' % (len(k), k, f2, want or 'nowhere')
+                # a key that is a proper prefix view of a stored name (same address, shorter) is a different key
+                for j in range(root.length):
+                    kn = root.block.slots[2 * j]
+                    if kn.kind == 'str' and len(kn.val) >= 2:
+                        if kn.addr is None:
+                            kn.addr = dm.new_addr()
+                        pre = kn.val[:-1]
+                        p3 = M.call('findMemberImpl', root, ('sv', pre, kn.addr))
+                        stats['ops'] += 1
+                        f3 = p3.idx // 2 if isinstance(p3, Ptr) and p3.block is not None and p3.block is root.block and 0 <= p3.idx < 2 * root.length else None
+                        want3 = [j2 for j2, (kk, _) in enumerate(ref) if kk == pre]
+                        if (f3 is None) != (not want3) or (want3 and f3 not in want3):
+                            return 'FindMember(%r) with a view that starts at the address of the stored name %r -> %s, the model has it at %s' % (pre, kn.val, f3, want3 or 'nowhere')
                 return None
             r0 = readback()
             if r0:
@@ -390,8 +411,17 @@ def clause_model(facts, rep, tier, kinds=('free', 'pool')):
                         ctr[0] += 1
                         M.call('addMemberImpl', root, ('sv', kx), M.node(val(ctr[0])), 'ALLOC', 1)
                         ref.append((kx, val(ctr[0])))
+                    elif name == 'adddup':
+                        if not ref:
+                            continue
+                        kx = ref[0][0]                     # the first member's key once more (AddMember does not look)
+                        ctr[0] += 1
+                        M.call('addMemberImpl', root, ('sv', kx), M.node(val(ctr[0])), 'ALLOC', 1)
+                        ref.append((kx, val(ctr[0])))
                     elif name == 'remove':
                         k = op[1]
+                        if len([1 for kk, _ in ref if kk == k]) > 1:
+                            continue                       # which of two equal keys goes is not specified
                         r = M.call('removeMemberImpl', root, ('sv', k))
                         idx = [j for j, (kk, _) in enumerate(ref) if kk == k]
                         if bool(r) != bool(idx):
@@ -427,7 +457,7 @@ def clause_model(facts, rep, tier, kinds=('free', 'pool')):
             return 'undefined behaviour: %s' % ex
         return None
     arr_ops = [('push',), ('pop',), ('reserve', 1), ('reserve', 5), ('clear',)] + [('erase', i, j) for i in range(0, 4) for j in range(i, 4)]
-    obj_ops = [('add', 1), ('add', 0), ('createmap',), ('destroymap',), ('clear',)] + [('remove', k) for k in ('a', 'b', 'c', 'zz')] + \
+    obj_ops = [('add', 1), ('add', 0), ('adddup',), ('createmap',), ('destroymap',), ('clear',)] + [('remove', k) for k in ('a', 'b', 'ab', 'zz')] + \
               [('erasem', i, j) for i in range(0, 4) for j in range(i, 4)]
     starts = [(0, 0), (1, 1), (2, 2), (3, 3), (3, 16)]
     import itertools
